@@ -333,17 +333,17 @@ brk("c19-lowercase", ["C19"], "sea-query-derive/src/iden/write_arm.rs", "       
 brk("c19-table-lowercase-cmp", ["C19"], "sea-query-derive/src/iden/write_arm.rs", '        if self.ident == "Table" {', '        if self.ident == "table" {', "C19.R")
 
 # ---- C11 -------------------------------------------------------------------------------------------------------
-brk("c11-values-num", ["C11"], "src/backend/query_builder.rs", "self.prepare_simple_expr(&values[num - 1], sql);", "self.prepare_simple_expr(&values[num], sql);", "C11.R1:custom:unclassified")
+brk("c11-values-num", ["C11"], "src/backend/query_builder.rs", "self.prepare_simple_expr(&values[num - 1], sql);", "self.prepare_simple_expr(&values[num], sql);", "C11.R1:custom:tape-table")
 brk("c11-count-not-incremented", ["C11"], "src/backend/query_builder.rs",
     """                                self.prepare_simple_expr(&values[count], sql);
                                 count += 1;""",
-    """                                self.prepare_simple_expr(&values[count], sql);""", "C11.R1:custom:unclassified")
+    """                                self.prepare_simple_expr(&values[count], sql);""", "C11.R1:custom:tape-table")
 brk("c11-doubled-emits-two", ["C11"], "src/backend/query_builder.rs",
     """                                write!(sql, "{mark}").unwrap();
                                 tokenizer.next();""",
     """                                write!(sql, "{mark}{mark}").unwrap();
-                                tokenizer.next();""", "C11.R1:custom:unclassified")
-brk("c11-inject-off-by-one", ["C11"], "src/prepare.rs", "output.push(query_builder.value_to_string(&params[num - 1]));", "output.push(query_builder.value_to_string(&params[num]));", "C11.R2:inject:unclassified")
+                                tokenizer.next();""", "C11.R1:custom:tape-table")
+brk("c11-inject-off-by-one", ["C11"], "src/prepare.rs", "output.push(query_builder.value_to_string(&params[num - 1]));", "output.push(query_builder.value_to_string(&params[num]));", "C11.R2:inject:tape-table")
 brk("c11-cust-values-rev", ["C11"], "src/expr.rs",
     """            v.into_iter()
                 .map(|v| Into::<Value>::into(v).into())
